@@ -16,9 +16,24 @@
 
 #include "raw_io.hh"
 
-uint32_t RawBinaryParser::read() { return *( m_cursor++ ); }
+void RawBinaryParser::require( size_t n ) const {
+    // every access goes through this check, so corrupted size fields end in an exception
+    // instead of reading outside the buffer
+    if ( n > static_cast<size_t>( m_data_end - m_cursor ) )
+    {
+        throw std::runtime_error( "Unexpected end of raw data: need " + std::to_string( n ) +
+                                  " words but only " +
+                                  std::to_string( m_data_end - m_cursor ) + " left" );
+    }
+}
+
+uint32_t RawBinaryParser::read() {
+    require( 1 );
+    return *( m_cursor++ );
+}
 
 std::vector<uint32_t> RawBinaryParser::read( size_t n ) {
+    require( n );
     std::vector<uint32_t> data( m_cursor, m_cursor + n );
     m_cursor += n;
     return data;
@@ -28,9 +43,15 @@ void RawBinaryParser::read( size_t n, uint32_t* data ) {
     for ( size_t i = 0; i < n; i++ ) { data[i] = read(); }
 }
 
-void RawBinaryParser::skip() { m_cursor++; }
+void RawBinaryParser::skip() {
+    require( 1 );
+    m_cursor++;
+}
 
-void RawBinaryParser::skip( size_t n ) { m_cursor += n; }
+void RawBinaryParser::skip( size_t n ) {
+    require( n );
+    m_cursor += n;
+}
 
 void RawBinaryParser::skip_event() {
     auto flag = read();
@@ -232,6 +253,9 @@ uint32_t RawBinaryParser::read_ROB( const uint32_t sub_det_id ) {
     auto rod_n_status   = read();
     auto rod_n_data     = read();
     auto rod_status_pos = read();
+
+    if ( rod_n_status > status_and_data.size() || rod_n_data > status_and_data.size() )
+    { throw std::runtime_error( "Invalid ROD trailer: more status/data words than payload" ); }
 
     if ( rod_status_pos == 0 )
         status_and_data.erase( status_and_data.begin(),
